@@ -1,4 +1,304 @@
+import Std.Data.HashMap
+import LdarModel.Model.Sim
 import LdarModel.Driver.Proto
-/- driver stub: replaced by the integrated simulation driver -/
-open LdarModel.Proto
-def main : IO Unit := runDriver (fun (_ : Unit) (_ : List String) => ((), "bad-op")) ()
+/-
+Driver of the integrated simulation model (exe `drv_sim`).  One request per line, one reply per line.
+
+  reset                                                                         -> ok
+  em <start> <nrd> <repairDelay> <repairable> <intermittent> <adur> <idur> <rate> <site> <eqg> <comp> <repairCost>
+                                                                                -> ok <idx>   (idx = order of arrival)
+  src [idx,..]                pending list of one source in pop order           -> ok
+  layout <site> [[eqg,[comp,..]],..]                                            -> ok
+  method <r|s|f> <fu> <stationary> <crews> <cap> <workdayH> <considerDaylight> <considerWeather>
+         <perDay> <perSite|-> <upfront> <mdl> <err> <trd>                       -> ok <m>     (m = program position)
+  msite <m> <site> <S> <siteCost> <rs> [months] [depYears] [simYears] [[mo,d],..]  -> ok   (planner order)
+  fup <m> <stationary> <rd> <delay> <prop> <thrFirst> <thr> <inst|-> <filter> <sw> <lw> <sthr> <lthr> -> ok
+  dates [[y,m,d],..]          calendar date of day 0,1,..                       -> ok
+  daylight [minutes,..]       daylight minutes of day 0,1,..                    -> ok
+  rolls <day> <m> [[em,s,t],..]   s,t in 0/1 (drawn outcome) or 2 (not drawn)   -> ok
+  travel <day> <m> [[site,T],..]                                                -> ok
+  unworkable <day> <m> [site,..]                                                -> ok
+  run <N>                                                                       -> ok
+  row <n>    -> new:active:rep:nat:exp:emis:mit:non|cost:repCost:natCost:tagged|<per method>;..
+                per method = cost,flags|-,tags|-,visited,travel,survey,upfront,sRolls,tRolls,missingRolls
+  trace <n>  -> per method: m issued=[..] plan=[..] out=[[site,complete,inProgress,surveyed,crew|-],..] done=[[site,measured,nTargets],..]
+  rec <idx>  -> present status activeDays emitDays start end|- theoryEnd mitDays tagged by initDetect|- initDetectBy|- [[m,b],..]
+  state <m>  -> queue / pool / flags of method m after the run
+Rationals are written p/q.
+-/
+open LdarModel LdarModel.Sim LdarModel.Proto
+
+def rat? (s : String) : Option Rat :=
+  match s.splitOn "/" with
+  | [a, b] => do
+    let n ← a.toInt?
+    let d ← b.toNat?
+    if d = 0 then none else some (mkRat n d)
+  | [a] => (a.toInt?).map (fun n => (n : Rat))
+  | _ => none
+
+def showRat (r : Rat) : String := s!"{r.num}/{r.den}"
+
+def filter? (s : String) : Option FollowUp.Filter :=
+  if s = "recent" then some .recent else if s = "max" then some .max
+  else if s = "average" then some .average else none
+
+structure MSite where
+  site : Nat
+  S : Int
+  cost : Int
+  P : Sched.PlannerP
+
+structure MBuild where
+  cfg : MethodCfg
+  sites : Array MSite := #[]
+
+structure DState where
+  ems : Array EmInfo := #[]
+  costs : Array Int := #[]
+  srcs : Array Heap.Src := #[]
+  layout : Std.HashMap Nat (List (Nat × List Nat)) := {}
+  meths : Array MBuild := #[]
+  dates : Array Sched.Date := #[]
+  daylight : Array Int := #[]
+  rollS : Std.HashMap Nat Bool := {}
+  rollT : Std.HashMap Nat Bool := {}
+  travel : Std.HashMap Nat Int := {}
+  unwork : Std.HashMap Nat Bool := {}
+  -- results
+  rows : Array TsRow := #[]
+  outs : Array DayOut := #[]
+  final : Option St := none
+  nRun : Nat := 0
+
+def key3 (d m x : Nat) : Nat := (d * 64 + m) * 1048576 + x
+
+def mkWorld (s : DState) : World :=
+  { ems := s.ems.toList, srcs := s.srcs.toList, layout := fun i => (s.layout.getD i []) }
+
+def mkMethod (b : MBuild) : MethodCfg :=
+  let tbl := b.sites.toList
+  let find (i : Nat) : Option MSite := tbl.find? (fun x => x.site = i)
+  { b.cfg with
+    sites := tbl.map (·.site),
+    S := fun i => match find i with | some x => x.S | none => 0,
+    siteCost := fun i => match find i with | some x => x.cost | none => 0,
+    P := fun i => match find i with | some x => x.P | none => {} }
+
+def mkProgram (s : DState) : Program := s.meths.toList.map mkMethod
+
+def mkInputs (s : DState) : Inputs :=
+  { date := fun n => s.dates.getD n { y := 0, m := 0, d := 0 },
+    spatial := fun d m e => s.rollS.getD (key3 d m e) true,
+    temporal := fun d m e => s.rollT.getD (key3 d m e) true,
+    travel := fun d m i => s.travel.getD (key3 d m i) 0,
+    workable := fun d m i => !(s.unwork.getD (key3 d m i) false),
+    daylightMin := fun n => s.daylight.getD n 1440,
+    repairCost := fun i => s.costs.getD i 0 }
+
+def parsePair (s : String) : Option (Nat × Nat) := do
+  match ← natList? s with
+  | [a, b] => some (a, b)
+  | _ => none
+
+def parseGroup (s : String) : Option (Nat × List Nat) := do
+  match ← splitTop s with
+  | [g, cs] => some (← nat? g, ← natList? cs)
+  | _ => none
+
+def parseDate (s : String) : Option Sched.Date := do
+  match ← natList? s with
+  | [y, m, d] => some { y := y, m := m, d := d }
+  | _ => none
+
+def showOptNat : Option Nat → String
+  | none => "-"
+  | some i => toString i
+
+def showStatus : Emission.Status → String
+  | .inactive => "inactive" | .active => "active" | .repaired => "repaired" | .expired => "expired"
+
+def showBy : Emission.By → String
+  | .none => "-" | .natural => "natural" | .expire => "expired" | .company c => s!"m{c}"
+
+/-- roll bookkeeping of a completed survey: spatial rolls drawn, temporal rolls drawn, rolls the
+model drew that the input tables do not contain -/
+def rollStats (s : DState) (n : Nat) (d : Done) : Nat × Nat × Nat :=
+  let obs := Sensor.detect d.sv.m d.sv.site d.sv.xs
+  obs.foldl (fun acc o =>
+    let a := if o.sRoll then acc.1 + 1 else acc.1
+    let b := if o.tRoll then acc.2.1 + 1 else acc.2.1
+    let c := acc.2.2 + (if o.sRoll && !(s.rollS.contains (key3 n d.sv.m o.e.id)) then 1 else 0)
+                     + (if o.tRoll && !(s.rollT.contains (key3 n d.sv.m o.e.id)) then 1 else 0)
+    (a, b, c)) (0, 0, 0)
+
+def showMeth (s : DState) (n : Nat) (c : MethCols) (t : MethTrace) : String :=
+  let rs := t.dones.foldl (fun acc d =>
+    let r := rollStats s n d
+    (acc.1 + r.1, acc.2.1 + r.2.1, acc.2.2 + r.2.2)) (0, 0, 0)
+  s!"{c.cost},{showOptInt c.flags},{showOptInt c.tags},{c.visited},{c.travel},{c.survey},{c.upfront},{rs.1},{rs.2.1},{rs.2.2}"
+
+def showRow (s : DState) (n : Nat) (r : TsRow) (o : DayOut) : String :=
+  let e := r.em
+  let ms := ";".intercalate ((List.zip r.meth o.traces).map (fun (c, t) => showMeth s n c t))
+  s!"{e.new}:{e.active}:{e.repaired}:{e.natRepaired}:{e.expired}:{e.emis}:{e.emisMit}:{e.emisNonMit}|" ++
+  s!"{r.cost.cost}:{r.cost.repCost}:{r.cost.natRepCost}:{r.tagged}|{ms}"
+
+def showOut (o : Crew.OutRec) : String :=
+  s!"[{o.req.site},{showBool o.rep.complete},{showBool o.rep.inProgress},{o.rep.surveyed},{showOptNat o.crew}]"
+
+def showTrace (t : MethTrace) : String :=
+  let outs := showList showOut t.dd.out
+  let dn := showList (fun (d : Done) => s!"[{d.sv.site},{d.rep.measured},{d.targets.length}]") t.dones
+  s!"{t.m} issued={showList toString t.issued} plan={showList toString t.keys} budget={t.budget} out={outs} done={dn}"
+
+def showRec (r : Rec) : String :=
+  let cov := showList (fun (x : Nat × Bool) => s!"[{x.1},{showBool x.2}]") r.cov
+  s!"{showBool r.present} {showStatus r.status} {r.activeDays} {r.emitDays} {r.start} {showOptInt r.endDate} " ++
+  s!"{r.theoryEnd} {r.mitDays} {showBool r.tagged} {showBy r.by_} {showOptInt r.initDetect} {showOptNat r.initDetectBy} {cov}"
+
+def showMState (c : MethodCfg) (m : MethSt) : String :=
+  let q := showList (fun (e : Sched.Entry) => s!"[{e.cls},{e.rate},{e.site}]") m.sched.q.entries
+  let pool := showList (fun (pl : FollowUp.Plan) => s!"[{pl.site},{showRat pl.rate}]") m.scr.pool
+  let fq := showList (fun (e : FollowUp.QE) => s!"[{e.cls},{e.plan.site},{showRat e.plan.rate}]") m.sh.queue
+  let inq := showList toString (c.sites.filter (fun i => m.sh.inQueue i))
+  s!"q={q} pool={pool} fq={fq} inQueue={inq} err={showBool m.sh.err} crashed={showBool m.sched.crashed}"
+
+def runDays (w : World) (prog : Program) (inp : Inputs) (N : Nat) : Array DayOut × St :=
+  (List.range N).foldl (fun (acc : Array DayOut × St) n =>
+    let o := simDayOut w prog inp n acc.2
+    (acc.1.push o, o.st)) (#[], init w prog)
+
+def addAll {α} (h : Std.HashMap Nat α) (kvs : List (Nat × α)) : Std.HashMap Nat α :=
+  kvs.foldl (fun h kv => h.insert kv.1 kv.2) h
+
+def step (s : DState) (toks : List String) : DState × String :=
+  match toks with
+  | ["reset"] => ({}, "ok")
+  | ["em", st, nrd, rd, rp, im, ad, idr, rate, site, eqg, comp, cost] =>
+    match int? st, int? nrd, int? rd, bool? rp, bool? im, int? ad, int? idr, int? rate, nat? site, nat? eqg,
+          nat? comp, int? cost with
+    | some st, some nrd, some rd, some rp, some im, some ad, some idr, some rate, some site, some eqg,
+      some comp, some cost =>
+      let idx := s.ems.size
+      let pp : Emission.Params := { start := st, nrd := nrd, repairDelay := rd, repairable := rp, intermittent := im, activeDur := ad, inactiveDur := idr }
+      let info : EmInfo := { idx := idx, rate := rate, site := site, eqg := eqg, comp := comp, p := pp }
+      ({ s with ems := s.ems.push info, costs := s.costs.push cost }, s!"ok {idx}")
+    | _, _, _, _, _, _, _, _, _, _, _, _ => (s, "bad-op")
+  | ["src", l] =>
+    match natList? l with
+    | some ids =>
+      let pend : List Heap.EmId := ids.map (fun i => { id := i, start := (s.ems.getD i default).p.start })
+      ({ s with srcs := s.srcs.push { pending := pend } }, "ok")
+    | none => (s, "bad-op")
+  | ["layout", site, l] =>
+    match nat? site, listOf? parseGroup l with
+    | some site, some gs => ({ s with layout := s.layout.insert site gs }, "ok")
+    | _, _ => (s, "bad-op")
+  | ["method", role, fu, stat, crews, cap, wd, cd, cw, pd, ps, up, mdl, err, trd] =>
+    match nat? fu, bool? stat, nat? crews, nat? cap, int? wd, bool? cd, bool? cw, int? pd, optInt? ps, int? up,
+          int? mdl, int? err, int? trd with
+    | some fu, some stat, some crews, some cap, some wd, some cd, some cw, some pd, some ps, some up,
+      some mdl, some err, some trd =>
+      let role? : Option Role :=
+        if role = "r" then some .routine else if role = "s" then some (.screen fu)
+        else if role = "f" then some .followUp else none
+      match role? with
+      | some r =>
+        let mc : Cost.MethodCost := { perDay := pd, perSite := ps, upfront := up }
+        let c : MethodCfg := { role := r, stationary := stat, crews := crews, cap := cap, workdayH := wd, considerDaylight := cd, considerWeather := cw, cost := mc, mdl := mdl, err := err, trd := trd }
+        ({ s with meths := s.meths.push { cfg := c } }, s!"ok {s.meths.size}")
+      | none => (s, "bad-op")
+    | _, _, _, _, _, _, _, _, _, _, _, _, _ => (s, "bad-op")
+  | ["msite", m, site, sT, cost, rs, months, dep, sim, plan] =>
+    match nat? m, nat? site, int? sT, int? cost, nat? rs, natList? months, natList? dep, natList? sim,
+          listOf? parsePair plan with
+    | some m, some site, some sT, some cost, some rs, some months, some dep, some sim, some plan =>
+      match s.meths[m]? with
+      | some b =>
+        let P : Sched.PlannerP := { rs := rs, months := months, depYears := dep, simYears := sim, plan := plan, surveyTime := if b.cfg.stationary then 0 else sT }
+        let b' := { b with sites := b.sites.push { site := site, S := sT, cost := cost, P := P } }
+        ({ s with meths := s.meths.set! m b' }, "ok")
+      | none => (s, "bad-op")
+    | _, _, _, _, _, _, _, _, _ => (s, "bad-op")
+  | ["fup", m, st, rd, dl, pr, tf, thr, inst, flt, sw, lw, sthr, lthr] =>
+    match nat? m, bool? st, int? rd, int? dl, rat? pr, bool? tf, rat? thr, filter? flt, nat? sw, nat? lw,
+          rat? sthr, rat? lthr with
+    | some m, some st, some rd, some dl, some pr, some tf, some thr, some flt, some sw, some lw,
+      some sthr, some lthr =>
+      let inst? : Option (Option Rat) := if inst = "-" then some none else (rat? inst).map some
+      match inst?, s.meths[m]? with
+      | some instv, some b =>
+        let p : FollowUp.Params := { stationary := st, rd := rd, delay := dl, prop := pr, thrFirst := tf, thr := thr, inst := instv, filter := flt, sw := sw, lw := lw, sthr := sthr, lthr := lthr }
+        ({ s with meths := s.meths.set! m { b with cfg := { b.cfg with fup := p } } }, "ok")
+      | _, _ => (s, "bad-op")
+    | _, _, _, _, _, _, _, _, _, _, _, _ => (s, "bad-op")
+  | ["dates", l] =>
+    match listOf? parseDate l with
+    | some ds => ({ s with dates := ds.toArray }, "ok")
+    | none => (s, "bad-op")
+  | ["daylight", l] =>
+    match intList? l with
+    | some ds => ({ s with daylight := ds.toArray }, "ok")
+    | none => (s, "bad-op")
+  | ["rolls", d, m, l] =>
+    match nat? d, nat? m, listOf? natList? l with
+    | some d, some m, some rs =>
+      let sp := rs.filterMap (fun r => match r with
+        | [e, a, _] => if a < 2 then some (key3 d m e, a == 1) else none
+        | _ => none)
+      let tp := rs.filterMap (fun r => match r with
+        | [e, _, b] => if b < 2 then some (key3 d m e, b == 1) else none
+        | _ => none)
+      ({ s with rollS := addAll s.rollS sp, rollT := addAll s.rollT tp }, "ok")
+    | _, _, _ => (s, "bad-op")
+  | ["travel", d, m, l] =>
+    match nat? d, nat? m, listOf? intList? l with
+    | some d, some m, some ts =>
+      let kv := ts.filterMap (fun r => match r with
+        | [i, t] => some (key3 d m i.toNat, t)
+        | _ => none)
+      ({ s with travel := addAll s.travel kv }, "ok")
+    | _, _, _ => (s, "bad-op")
+  | ["unworkable", d, m, l] =>
+    match nat? d, nat? m, natList? l with
+    | some d, some m, some is =>
+      ({ s with unwork := addAll s.unwork (is.map (fun i => (key3 d m i, true))) }, "ok")
+    | _, _, _ => (s, "bad-op")
+  | ["run", n] =>
+    match nat? n with
+    | some n =>
+      let r := runDays (mkWorld s) (mkProgram s) (mkInputs s) n
+      ({ s with outs := r.1, rows := r.1.map (·.row), final := some r.2, nRun := n }, "ok")
+    | none => (s, "bad-op")
+  | ["row", n] =>
+    match nat? n with
+    | some n =>
+      match s.outs[n]? with
+      | some o => (s, showRow s n o.row o)
+      | none => (s, "no-row")
+    | none => (s, "bad-op")
+  | ["trace", n] =>
+    match nat? n with
+    | some n =>
+      match s.outs[n]? with
+      | some o => (s, " | ".intercalate (o.traces.map showTrace))
+      | none => (s, "no-row")
+    | none => (s, "bad-op")
+  | ["rec", i] =>
+    match nat? i, s.final with
+    | some i, some st =>
+      match s.ems[i]?, st.ems[i]? with
+      | some info, some e => (s, showRec (recOf s.nRun info e))
+      | _, _ => (s, "no-rec")
+    | _, _ => (s, "bad-op")
+  | ["state", m] =>
+    match nat? m, s.final with
+    | some m, some st =>
+      match st.ms[m]?, (mkProgram s)[m]? with
+      | some ms, some c => (s, showMState c ms)
+      | _, _ => (s, "no-method")
+    | _, _ => (s, "bad-op")
+  | _ => (s, "bad-op")
+
+def main : IO Unit := runDriver step {}
